@@ -73,8 +73,8 @@ def run(rep, tier, seed, replay):
             rep.stats["dfa-" + line.split()[0]] += 1
     # confirm every distinguishing path through the public API and through the verified oracle
     conf = h.ask(["M %s %s" % (hexs(exprs[k]), hexs(w)) for k, w, _ in diffs])
-    sm = m.ask(["SM %s %s" % (hexs(exprs[k]), hexs(w)) for k, w, _ in diffs])
-    mm = m.ask(["MM %s %s" % (hexs(exprs[k]), hexs(w)) for k, w, _ in diffs])
+    sm = m.ask(["SM %s %s" % (hexs(exprs[k]), hexs(w)) for k, w, _ in diffs], timeout=40)
+    mm = m.ask(["MM %s %s" % (hexs(exprs[k]), hexs(w)) for k, w, _ in diffs], timeout=40)
     for (k, w, in_impl), c, s, mline in zip(diffs, conf, sm, mm):
         impl_match = c.startswith("match")
         if impl_match != in_impl or s not in ("0", "1") or (s == "1") == impl_match:
